@@ -22,13 +22,26 @@ type mapCfg struct {
 	OffName   string
 	Offset    float64
 	DefaultOf bool
+	// Gamma != 0: the mapping is given by its base (as a decoder receives it),
+	// e.g. a power of two, for which the interpolated mappings' multipliers are
+	// exact; its accuracy is then the one it reports, cross-checked by rebuilding
+	// a mapping from that accuracy and comparing the bases.
+	Gamma float64
 }
 
 func (c mapCfg) String() string {
+	if c.Gamma != 0 {
+		return fmt.Sprintf("%s(gamma=%s,offset=%s)", map[byte]string{'G': "log", 'I': "lin", 'C': "cub"}[c.Kind], fstr(c.Gamma), c.OffName)
+	}
 	return fmt.Sprintf("%s(alpha=%s,offset=%s)", map[byte]string{'G': "log", 'I': "lin", 'C': "cub"}[c.Kind], fstr(c.Alpha), c.OffName)
 }
 
 func (c mapCfg) build() (m, fromAccuracy mapping.IndexMapping) {
+	if c.Gamma != 0 {
+		m = MapSpec{Kind: c.Kind, Gamma: c.Gamma, Offset: c.Offset}.New()
+		fromAccuracy = MapSpec{Kind: c.Kind, Alpha: m.RelativeAccuracy()}.New()
+		return
+	}
 	fromAccuracy = MapSpec{Kind: c.Kind, Alpha: c.Alpha}.New()
 	gamma, off := mapParams(fromAccuracy)
 	if !c.DefaultOf {
@@ -191,7 +204,15 @@ func c03Shard(cfg mapCfg, part, parts, tbits int, stride int) mc.Shard {
 		r := &c03Run{res: res, cfg: cfg, m: m, alpha: cfg.Alpha, gamma: gamma, offset: offset, lnGamma: math.Log(gamma),
 			min: m.MinIndexableValue(), max: m.MaxIndexableValue()}
 		r.topIdx = m.Index(r.max)
-		if part == 0 {
+		if cfg.Gamma != 0 {
+			// the accuracy of a mapping given by its base is the one it reports, provided
+			// a mapping built from that accuracy has the same base
+			r.alpha = m.RelativeAccuracy()
+			if g2, _ := mapParams(fromAcc); !(math.Abs(g2-cfg.Gamma) <= 1e-9*cfg.Gamma) || !(r.alpha > 0 && r.alpha < 1) {
+				r.fail("C03.reported-accuracy", "built with base %v it reports accuracy %v, but a mapping built from that accuracy has base %v", cfg.Gamma, r.alpha, g2)
+			}
+		}
+		if part == 0 && cfg.Gamma == 0 {
 			for _, mm := range []mapping.IndexMapping{m, fromAcc} {
 				if ra := mm.RelativeAccuracy(); math.Abs(ra-cfg.Alpha) > math.Ldexp(1, -49) {
 					r.fail("C03.reported-accuracy", "RelativeAccuracy()=%v, built with %v", ra, cfg.Alpha)
@@ -199,6 +220,8 @@ func c03Shard(cfg mapCfg, part, parts, tbits int, stride int) mc.Shard {
 					mc.Allow("C03 reported accuracy", math.Abs(ra-cfg.Alpha)/math.Ldexp(1, -49))
 				}
 			}
+		}
+		if part == 0 {
 			if !(r.min > 0) || !(r.max > r.min) || math.IsInf(r.max, 0) {
 				r.fail("C03.range", "indexable range [%v, %v] is not a positive finite interval", r.min, r.max)
 			}
@@ -263,7 +286,11 @@ func c03Shard(cfg mapCfg, part, parts, tbits int, stride int) mc.Shard {
 		res.WallS = time.Since(start).Seconds()
 		return res
 	}
-	return mc.Shard{Name: name, Weight: int(1 / cfg.Alpha), Run: run, Replay: func(string, []string) ([]mc.Fail, error) {
+	weight := 10
+	if cfg.Alpha > 0 {
+		weight = int(1 / cfg.Alpha)
+	}
+	return mc.Shard{Name: name, Weight: weight, Run: run, Replay: func(string, []string) ([]mc.Fail, error) {
 		res := run(time.Now().Add(20 * time.Minute))
 		var fails []mc.Fail
 		for _, v := range res.Violations {
@@ -298,6 +325,14 @@ func c03Shards(tier string) []mc.Shard {
 				for p := 0; p < parts; p++ {
 					out = append(out, c03Shard(cfg, p, parts, tbits, 1))
 				}
+			}
+		}
+		// mappings given by their base, as a decoder receives them: powers of two
+		// (the interpolated mappings' multipliers are then exact and whole offsets
+		// put bin edges on whole log2 values) and two other exactly representable bases
+		for _, g := range []float64{2, 4, 16, 1.5, 1.0625} {
+			for _, o := range []offCfg{{"0", 0, false}, {"1", 1, false}, {"-3", -3, false}, {"0.5", 0.5, false}, {"1234", 1234, false}} {
+				out = append(out, c03Shard(mapCfg{Kind: k, Gamma: g, OffName: o.name, Offset: o.v}, 0, 1, tbits, 1))
 			}
 		}
 	}
